@@ -6,3 +6,4 @@ import FuraxProofs.Props.C01
 #print axioms Furax.C01.algebraicReduction_sound
 #print axioms Furax.C01.homothetyRule_sound
 #print axioms Furax.C01.identityRule_sound
+#print axioms Furax.C01.framework_inhabited
